@@ -124,6 +124,27 @@ impl<C: Config> Engine<C> {
         &self,
     ) -> (WriteTransaction<C>, ActiveInputSessionGuard) {
         crate::verif_pause!("phase:w:pre", None);
+        // Take the exclusive phase lock FIRST. The timestamp must only change
+        // while no computation is active: a `tracked()` caller that holds (or
+        // obtains) the shared lock after the bump but before the inputs are
+        // written would verify nodes at the new timestamp against the old
+        // inputs, and those nodes would be trusted after the commit. Creating
+        // the write batch after the lock also keeps its epoch above every
+        // batch of the computations that ran before this session, and leaves
+        // nothing to clean up if this future is dropped while it waits.
+        crate::verif_point!("phase:w:req", None, 0);
+
+        let guard = self
+            .computation_graph
+            .database
+            .sync
+            .phase_mutex
+            .clone()
+            .write_owned()
+            .await;
+        crate::verif_point!("is.acq", None, 0);
+        crate::verif_point!("phase:w:acq", None, 0);
+
         let mut write_buffer = self
             .computation_graph
             .database
@@ -153,18 +174,6 @@ impl<C: Config> Engine<C> {
         crate::verif_point!("phase:w:stage", None, new_timestamp);
         crate::verif_pause!("is.bumped", None);
         crate::verif_pause!("phase:w:staged", None);
-        crate::verif_point!("phase:w:req", None, 0);
-
-        let guard = self
-            .computation_graph
-            .database
-            .sync
-            .phase_mutex
-            .clone()
-            .write_owned()
-            .await;
-        crate::verif_point!("is.acq", None, 0);
-        crate::verif_point!("phase:w:acq", None, 0);
 
         (write_buffer, ActiveInputSessionGuard(Arc::new(guard)))
     }
